@@ -3,7 +3,8 @@ package interp
 // Concrete codec model for gzip / flate / snappy: a deterministic, injective
 // family of mutually incompatible "compressions". Enc_c(P) = tag_c ++ P ++ ^tag_c;
 // Dec_c accepts exactly the strings of that shape. Payload bytes (possibly
-// symbolic) pass through untouched. The real codecs are used in native replay.
+// symbolic) pass through untouched (one exception, as in the real package: the snappy stream
+// format of nothing is nothing). The real codecs are used in native replay.
 
 import (
 	"fmt"
@@ -21,6 +22,11 @@ type codecState struct {
 }
 
 func codecEnc(codec string, plain []value) []value {
+	if codec == "snappy-stream" && len(plain) == 0 {
+		// the real stream writer emits nothing (not even the stream identifier) when nothing
+		// was written, and the stream reader reads an empty input as an empty stream
+		return []value{}
+	}
 	t := codecTags[codec]
 	r := make([]value, 0, len(plain)+2)
 	r = append(r, t)
@@ -32,6 +38,9 @@ func codecEnc(codec string, plain []value) []value {
 // codecDec returns the plain bytes and whether enc is well formed (may fork on symbolic bytes).
 func (fr *frame) codecDec(codec string, enc []value) ([]value, bool) {
 	t := codecTags[codec]
+	if codec == "snappy-stream" && len(enc) == 0 {
+		return []value{}, true
+	}
 	if len(enc) < 2 {
 		return nil, false
 	}
